@@ -1,5 +1,6 @@
 import Cql.Props.C16Close
 import Cql.Gen.ConnFacts
+import Cql.Gen.TimerFacts
 /-!
 # C16: the `Send`/`Close` micro-step theorems, stated for the locking order found in the source
 
@@ -38,5 +39,15 @@ theorem C16_server_send_never_panics_as_written (n : Nat) (schedule : List Ev) :
 theorem C16_server_sendraw_never_panics_as_written (n : Nat) (schedule : List Ev) :
     SPc.panicked ∉ (run Gen.ConnFacts.serverSendRawLocked { senders := List.replicate n .idle } schedule).senders := by
   rw [C16_locking_order_as_written.2.2.1]; exact C16_send_never_panics n schedule
+
+/-- **The read timeout as written** is the one of the timed model `Cql/Timer.lean` (whose theorems are `Cql/Props/C16.lean`):
+    every non-final page restarts the clock — `resetTimeout` is exactly "stop, then start", with no condition, and is what the
+    non-final branch of `onFrameReceived` calls; the final page stops the clock and completes the request; the timer runs the full
+    read timeout; and its goroutine fails the request only when the deadline has passed, not when the timer was cancelled by a
+    restart. Regenerated from `client/inflight.go` on every run (`Cql/Gen/TimerFacts.lean`). -/
+theorem C16_read_timeout_as_written :
+    Gen.TimerFacts.resetStopsThenStartsUnconditionally = true ∧ Gen.TimerFacts.everyPageRestartsTheClock = true ∧
+    Gen.TimerFacts.lastPageStopsTheClockAndCompletes = true ∧ Gen.TimerFacts.timerRunsTheFullReadTimeout = true ∧
+    Gen.TimerFacts.timerFailsTheRequestOnlyWhenTheDeadlinePassed = true := by decide
 
 end Cql.Props.C16AsWritten
